@@ -312,9 +312,9 @@ func recordFoldOne(P *Program, sh recShape) *recFold {
 	}
 	r.readFn = rd
 	type ev struct {
-		op  string
-		id  string
-		off int64
+		op     string
+		id     string
+		off    int64
 		hasOff bool
 	}
 	trace := func(fn *ssa.Function, args []cpVal) ([]ev, bool) {
